@@ -25,12 +25,14 @@ type c07Case struct {
 	Shape  string   `json:"shape"`
 	Target []string `json:"target"` // path: keys and indices as text ("#2" = index 2)
 	Update string   `json:"update"` // kind
+	Deco   string   `json:"decoration,omitempty"` // "" (foot comment after the last entry of nested collections) | foots (after every entry) | aliases (a commented alias entry closes every collection)
 }
 
 // c07Decorate renders the shape with every node decorated; returns text.
-func c07Decorate(v *val.V) string {
+func c07Decorate(v *val.V, deco string) string {
 	root := yamlgen.FromV(v)
 	n := 0
+	anchored := false
 	var walk func(l *yamlgen.L, path string, isKey bool)
 	walk = func(l *yamlgen.L, path string, isKey bool) {
 		n++
@@ -38,9 +40,11 @@ func c07Decorate(v *val.V) string {
 			for i, c := range l.Kids {
 				sub := fmt.Sprintf("%s.%d", path, i)
 				if l.Kind == val.Map {
-					l.Keys[i].Head = "head of key " + sub
+					if deco != "foots" {
+						l.Keys[i].Head = "head of key " + sub
+					}
 					walk(l.Keys[i], sub+"k", true)
-				} else {
+				} else if deco != "foots" {
 					c.Head = "head of item " + sub
 				}
 				walk(c, sub, false)
@@ -48,11 +52,39 @@ func c07Decorate(v *val.V) string {
 			if len(l.Kids) > 0 && path != "" {
 				l.Kids[len(l.Kids)-1].Foot = "foot after " + path
 			}
+			if deco == "foots" {
+				// foot comments only (the parser reads a comment as the foot of an entry only when it follows the entry directly, the
+				// entry's line has no comment and the next entry has no head comment): one after every entry
+				for i, c := range l.Kids {
+					c.Foot, c.Tight = fmt.Sprintf("foot of entry %s.%d", path, i), true
+					c.Line = ""
+					if path == "r" && i == len(l.Kids)-1 {
+						c.Foot, c.Tight = "foot after r", false // the comment that closes the document
+					}
+				}
+			}
+			if deco == "aliases" && len(l.Kids) > 0 {
+				// the last entry of every collection is an alias with comments of its own (the anchor is on the first scalar of the document)
+				al := &yamlgen.L{Alias: "x", Line: "line of alias in " + path}
+				if l.Kind == val.Map {
+					l.Keys = append(l.Keys, &yamlgen.L{Kind: val.Str, Text: "al", Head: "head of alias key in " + path})
+				} else {
+					al.Head = "head of alias in " + path
+				}
+				if path != "" {
+					al.Foot, l.Kids[len(l.Kids)-1].Foot = l.Kids[len(l.Kids)-1].Foot, ""
+				}
+				l.Kids = append(l.Kids, al)
+			}
 			return
 		}
 		if !isKey {
+			if deco == "aliases" && !anchored {
+				anchored = true
+				l.Anchor = "x"
+			}
 			l.Line = "line of " + path
-			if l.Kind == val.Str {
+			if l.Kind == val.Str && deco != "foots" {
 				switch n % 3 {
 				case 0:
 					if yamlgen.StyleLegal("single", l.Text) {
@@ -157,7 +189,28 @@ func c07PathExpr(target []string) string {
 // c07Check returns (kind, detail).
 func c07Check(cs c07Case) (kind, detail string) {
 	v := fromJSONText(cs.Shape)
-	text := c07Decorate(v)
+	text := c07Decorate(v, cs.Deco)
+	extra := 0 // entries the decoration adds to every non-empty collection
+	if cs.Deco == "aliases" {
+		extra = 1
+		// the anchored scalar is the first leaf: a target that contains it would remove the anchor the aliases need
+		lp := []string{}
+		for t := v; t.K == val.Seq || t.K == val.Map; {
+			if len(t.Vals) == 0 {
+				lp = nil
+				break
+			}
+			if t.K == val.Map {
+				lp = append(lp, t.Keys[0].S)
+			} else {
+				lp = append(lp, "#0")
+			}
+			t = t.Vals[0]
+		}
+		if lp == nil || len(cs.Target) <= len(lp) && strings.Join(lp[:len(cs.Target)], "/") == strings.Join(cs.Target, "/") {
+			return "skip", ""
+		}
+	}
 	// target value
 	tv := v
 	for _, t := range cs.Target {
@@ -212,7 +265,11 @@ func c07Check(cs c07Case) (kind, detail string) {
 		switch tv.K {
 		case val.Seq:
 			expr = p + ` += ["x"]`
-			touched = []string{tpath + "/#" + strconv.Itoa(len(tv.Vals))}
+			ext := extra
+			if len(tv.Vals) == 0 {
+				ext = 0
+			}
+			touched = []string{tpath + "/#" + strconv.Itoa(len(tv.Vals)+ext)}
 		case val.Map:
 			expr = p + ` += {"zz": 1}`
 			touched = []string{tpath + "/zz"}
@@ -269,6 +326,32 @@ func c07Check(cs c07Case) (kind, detail string) {
 		touched = []string{pp + "/created"}
 	default:
 		return "skip", ""
+	}
+	if cs.Deco == "foots" {
+		// ground truth: an independent reading of the generated text must hold every generated comment as a foot comment
+		// (the parser gives a comment to the *next* entry in several layouts, e.g. behind a quoted scalar)
+		okGT := true
+		var chk func(n *yaml.Node)
+		chk = func(n *yaml.Node) {
+			if strings.Contains(n.HeadComment, "foot of entry") || strings.Contains(n.LineComment, "foot of entry") {
+				okGT = false
+			}
+			for _, c := range n.Content {
+				chk(c)
+			}
+		}
+		// read both ways: as a whole, and as yq's decoder sees it (header comment and separator taken off first) - the parser's
+		// attribution of a comment depends on what precedes the document
+		for _, t := range []string{text, strings.TrimPrefix(text, "# leading comment\n---\n")} {
+			in, err := c05Nodes(t)
+			if err != nil || len(in) != 1 {
+				return "skip", "generated text unreadable"
+			}
+			chk(in[0])
+		}
+		if !okGT {
+			return "skip", "not ground truth"
+		}
 	}
 	base, berr, bpan := c07Run1(text, ".")
 	if berr != nil || bpan != nil {
@@ -523,29 +606,36 @@ func c07Run(c *fw.Ctx) error {
 		shapes = append(shapes, fromJSONText(e))
 	}
 	kinds := []string{"scalar", "subtree", "delete", "append", "arith", "create-below", "create-beside", "copy-then-edit"}
-	c.Res.Bound = fmt.Sprintf("%d fully decorated documents (every container shape of <= %d content nodes over {1, \"a\"} and keys {k, m}, plus 3 deeper ones) x every node as target x %d update kinds", len(shapes), n, len(kinds))
+	var kindDecos [][2]string
+	for _, deco := range []string{"", "foots", "aliases"} {
+		for _, k := range kinds {
+			kindDecos = append(kindDecos, [2]string{k, deco})
+		}
+	}
+	c.Res.Bound = fmt.Sprintf("3 decoration variants (foot comment after the last entry of nested collections; after every entry; a commented alias closing every collection) x %d fully decorated documents (every container shape of <= %d content nodes over {1, \"a\"} and keys {k, m}, plus 3 deeper ones) x every node as target x %d update kinds", len(shapes), n, len(kinds))
 	var idx int64
 	for si, sh := range shapes {
 		shape := sh.JSON()
 		for ti, tg := range c07Targets(sh) {
-			for _, k := range kinds {
+			for _, kd := range kindDecos {
+				k, deco := kd[0], kd[1]
 				idx++
 				if !c.Mine(idx) || c.Expired() {
 					continue
 				}
-				cs := c07Case{Shape: shape, Target: tg, Update: k}
+				cs := c07Case{Shape: shape, Target: tg, Update: k, Deco: deco}
 				kind, detail := c07Check(cs)
 				if kind == "skip" {
 					continue
 				}
 				c.Eval(1)
 				c.Validated(1)
-				key := fmt.Sprintf("%s|%v|%s", shape, tg, k)
+				key := fmt.Sprintf("%s|%v|%s|%s", shape, tg, k, deco)
 				c.Nontrivial(key)
 				if kind == "" {
 					c.Outcome(key)
 					if idx%3001 == 7 {
-						c.Sample(map[string]interface{}{"case": cs, "document": c07Decorate(sh)})
+						c.Sample(map[string]interface{}{"case": cs, "document": c07Decorate(sh, cs.Deco)})
 					}
 					continue
 				}
@@ -580,7 +670,11 @@ func c07Run(c *fw.Ctx) error {
 						pos = "/in-map"
 					}
 				}
-				c.Violation(kind+"/"+k+"/target="+tv+pos, int64(sh.Size())*1e6+int64(si*100+ti), cs, detail)
+				dsig := ""
+				if deco == "aliases" {
+					dsig = "/deco=" + deco
+				}
+				c.Violation(kind+"/"+k+"/target="+tv+pos+dsig, int64(sh.Size())*1e6+int64(si*100+ti), cs, detail)
 			}
 		}
 	}
@@ -616,3 +710,6 @@ func init() {
 		})
 	})
 }
+
+// C07Text renders the decorated document of a shape (debugging aid).
+func C07Text(shape, deco string) string { return c07Decorate(fromJSONText(shape), deco) }
